@@ -163,6 +163,17 @@ CHECKS = {
         note="Trusted: the generator's vocabulary is '@'-free by construction. At least one macro definition is always supplied (the statement's scope).",
         ref="DESIGN.md 4/C19",
     ),
+    "C17": dict(
+        cat="fault_enumeration",
+        technique="fault injection enumerated over a finite fault list x Hypothesis-generated 'found' bases (assembly and binary mode, API and CLI); oracle: outcome must be error or found, never a silent miss",
+        text="~60 fault kinds (file faults incl. unreadable files in a capability-less child, absent/failing/killed/half-printing disassembler, broken YAML at a drawn offset, missing and "
+        "wrongly typed pattern/config/macros entries, empty groups, $not arity, $deref without main_reg, negative/inverted times in both spellings on items and groups, "
+        "undefined macros with no/in-file/extra-file definitions) are each injected alone into generated (rule, input) pairs whose fault-free verdict is confirmed 'found' on "
+        "every case; the operation must raise / exit non-zero, or still find; False/[] without error is the violation. One open finding (F10b) is listed in known_findings.json.",
+        note="Trusted: the fault injectors; capset/prctl for the unreadable cells (reported as not exercised if refused; a control run in the same child must say 'found'). "
+        "Faults JASM accepts while still reporting 'found' are counted as accepted.",
+        ref="DESIGN.md 4/C17",
+    ),
 }
 
 NOT_APPLICABLE = []
